@@ -4,6 +4,8 @@ import (
 	"bytes"
 	"fmt"
 	"math"
+
+	"github.com/wi1dcard/fingerproxy/pkg/vhook"
 )
 
 // https://github.com/golang/net/blob/5a444b4f2fe893ea00f0376da46aa5376c3f3e28/http2/http2.go#L112-L119
@@ -48,6 +50,7 @@ func (f *HTTP2FingerprintingFrames) String() string {
 func (f *HTTP2FingerprintingFrames) Marshal(maxPriorityFrames uint) string {
 	var buf bytes.Buffer
 
+	vhook.Point("metadata.Marshal.settings", f)
 	// SETTINGS frame
 	for i, s := range f.Settings {
 		if i != 0 {
@@ -60,10 +63,12 @@ func (f *HTTP2FingerprintingFrames) Marshal(maxPriorityFrames uint) string {
 
 	buf.WriteString("|")
 
+	vhook.Point("metadata.Marshal.windowUpdate", f)
 	// WINDOW_UPDATE frame
 	// ‘00’ if the frame is not present
 	buf.WriteString(fmt.Sprintf("%02d|", f.WindowUpdateIncrement))
 
+	vhook.Point("metadata.Marshal.priorities", f)
 	// PRIORITY frame
 	if l := len(f.Priorities); uint(l) < maxPriorityFrames {
 		maxPriorityFrames = uint(l)
@@ -91,6 +96,7 @@ func (f *HTTP2FingerprintingFrames) Marshal(maxPriorityFrames uint) string {
 		buf.WriteString("|")
 	}
 
+	vhook.Point("metadata.Marshal.headers", f)
 	// HEADERS frame
 	wrotePseudoHeader := false
 	for _, h := range f.Headers {
